@@ -120,8 +120,8 @@ write("C11", "C11 — mutating any file the library agreed to open never panics 
    ("bounded_walk_always_terminates", "find_last_total", "the repaired extend_chain walk, for ANY table"),
    ("the_free_list_condition_is_needed", "extend_chain_needs_freeinv", "without it extend_chain can build a tail into a self-loop (witness)"),
   ])
-write("C03", "C03 — every produced image is a well-formed MS-CFB file by an independent checker.  Statements are printed by Check below and compared with C03.expected.  PARTIAL: the checker wf_check (spec/WfImage.v, written from MS-CFB and the property text, sharing no mechanics with the model or the library) is run on the IMPLEMENTATION's bytes after every operation of every generated history — that is the property's oracle applied directly to the code.  Theorems cover the base case (the created image of both versions is accepted), evaluated instances of the inductive step, non-triviality of the checker, and the parts of the invariant W that are proved: FAT cache = FAT on disk through reuse and growth, FAT/DIFAT markers maintained (FatInv/DifatOk), free list disjoint from FAT sectors and naming only FREE cells, removal blanks exactly the removed slot and keeps the sibling tree a search tree without red-red edges.  The full preservation theorem W (WF s -> wf_b (image (step s op))) is not proved.",
-  IMP_ALL + "\nFrom Cfb.spec Require Import WfImage.\nFrom Cfb.proofs Require Import WfProofs CoherenceProofs ReuseProofs DirProofs WalkSafe.",
+write("C03", "C03 — every produced image is a well-formed MS-CFB file by an independent checker.  Statements are printed by Check below and compared with C03.expected.  PARTIAL: the checker wf_check (spec/WfImage.v, written from MS-CFB and the property text, sharing no mechanics with the model or the library) is run on the IMPLEMENTATION's bytes after every operation of every generated history — that is the property's oracle applied directly to the code.  Theorems cover the base case (the created image of both versions is accepted), evaluated instances of the inductive step, non-triviality of the checker, and the parts of the invariant W that are proved: FAT cache = FAT on disk through reuse and growth, FAT/DIFAT markers maintained (FatInv/DifatOk), free list disjoint from FAT sectors and naming only FREE cells, removal blanks exactly the removed slot and keeps the sibling tree a search tree without red-red edges.  Also proved (proofs/WfPersist.v): THE PROPERTY FOR NAMESPACE HISTORIES - the checker accepts (all 44 rules) the image of every state satisfying the history invariant of C02 (PInv) with empty streams, no orphan FAT cells, an empty mini stream and blank slots outside the tree; those conditions hold of the fresh file and are kept by create_storage, create_new_stream, remove_storage, remove_stream and the metadata setters; hence for EVERY history of those calls and the queries from a fresh file of either version (up to 6000 calls) the image is well-formed, at every prefix.  NOT proved: histories that write stream data (W for the store layer).",
+  IMP_ALL + "\nFrom Cfb.spec Require Import WfImage.\nFrom Cfb.proofs Require Import WfProofs CoherenceProofs ReuseProofs DirProofs WalkSafe ReadonlyTotal PersistProofs WfPersist.",
   [("created_image_wf_v3", "created_image_wf_v3", "base case, version 3"),
    ("created_image_wf_v4", "created_image_wf_v4", "base case, version 4"),
    ("history_image_wf_v3", "history_image_wf_v3", "an evaluated history through every allocator path, version 3"),
@@ -134,6 +134,12 @@ write("C03", "C03 — every produced image is a well-formed MS-CFB file by an in
    ("free_list_names_only_free_cells", "allocate_sector_preserves", "Safe includes: free list without duplicates, naming only FREE cells (so no sector is handed out twice)"),
    ("removal_blanks_the_slot_and_keeps_a_search_tree", "remove_rep", "unallocated entries are blank, the children stay a search tree"),
    ("removal_creates_no_red_red", "remove_no_red_red", "no two adjacent red nodes are introduced"),
+   ("invariant_states_are_well_formed", "pinv_image_wf", "every state satisfying the history invariant (with empty streams, owned FAT cells, empty mini stream, blank free slots) has an image the independent checker accepts"),
+   ("invariant_is_kept_by_every_covered_call", "step_xinv", "the extra conditions are preserved by every covered operation (Ok, or refused without effect)"),
+   ("images_of_namespace_histories_are_well_formed", "wf_history", "for EVERY history of the covered calls from a fresh file: wf_check = 0"),
+   ("well_formed_at_every_prefix", "wf_every_prefix", "the same at every operation boundary"),
+   ("history_example_is_well_formed", "WfExample.hist_wf", "non-vacuity: the 17-call example history of C02, V3 and V4"),
+   ("checker_rejects_a_corrupted_example_image", "WfExample.hist_image_broken_rejected", "and the checker rejects that image with one byte changed"),
   ])
 
 write("C08", "C08 — bytes gained by growing a stream read as zero, whatever was there before.  Statements are printed by Check below and compared with C08.expected.  PARTIAL: at the handle level set_len refines 'truncate or pad with zeros' given the store's resize contract; Store.resize itself is proved to zero every gained byte, with no hypothesis on what the sectors held before, for large streams (growth within the last sector, into reused sectors, by appending; shrink-then-grow) and for small streams that need no new mini sector; other streams are untouched.  NOT proved: growth of a small stream that allocates new mini sectors, and the mini <-> regular migrations; those, and whole histories, are checked on the real crate against a byte vector for every buffer size, and by lockstep with the model, which keeps stale sector bytes.",
